@@ -49,7 +49,14 @@ def case_strategy(draw):
                                     st.sampled_from(["mat", "setitem", "column"])).map(list), max_size=3))
     # how the matrix object holds its data: its own array, or a read-only view of an array the caller keeps (and later edits)
     storage = draw(st.sampled_from(["own", "own", "readonly_view", "readonly_thawed"]))
-    return {"phased": phased, "ploidy": ploidy, "n": n, "p": p, "cols": cols, "dtype": dtype, "edits": edits, "storage": storage}
+    # structural operations applied IN PLACE to the same object between two rounds of queries (phases, taxa or variants
+    # appended / removed / incorporated): every statistic must describe the matrix as it is then, ploidy included
+    struct = draw(st.lists(st.tuples(st.sampled_from(["append_phase", "remove_phase", "incorp_phase", "append_taxa",
+                                                      "remove_taxa", "append_vrnt", "remove_vrnt"]),
+                                     st.integers(0, 10 ** 6), st.integers(1, 2), st.integers(0, 2 ** 30)).map(list),
+                           max_size=3)) if draw(st.integers(0, 2)) == 0 else []
+    return {"phased": phased, "ploidy": ploidy, "n": n, "p": p, "cols": cols, "dtype": dtype, "edits": edits, "storage": storage,
+            "struct": struct}
 
 
 def build_calls(case):
@@ -91,6 +98,13 @@ def check_stats(case, ctx):
         g = DenseGenotypeMatrix(mat=held, ploidy=m)
     ctx.label("storage:" + storage)
     evaluate(case, ctx, g, calls)
+    if case.get("struct") and storage == "own":
+        calls, done = apply_structural(case, ctx, g, calls)
+        if done:
+            ctx.label("queried_again_after_in_place_structural_operation")
+            ctx.label("queried_again_after_in_place_change_of_ploidy", calls.shape[0] != m)
+            m, n, p = calls.shape
+            evaluate(case, ctx, g, calls)
     edits = case.get("edits") or []
     if edits and storage != "own":
         # the matrix holds a read-only handle on memory that the caller still owns and now changes
@@ -132,6 +146,66 @@ def check_stats(case, ctx):
                 else:
                     g.mat[i, j] = newdos[i, j]
         evaluate(case, ctx, g, calls)
+
+
+def _bits(seed, shape, fill):
+    """deterministic 0/1 block from the case: fill 0 -> zeros, 1 -> ones, else a hash pattern of the seed"""
+    if fill in (0, 1):
+        return numpy.full(shape, fill, dtype="int8")
+    idx = numpy.arange(int(numpy.prod(shape)), dtype="uint64").reshape(shape)
+    return (((idx * numpy.uint64(2654435761) + numpy.uint64(seed)) >> numpy.uint64(7)) & numpy.uint64(1)).astype("int8")
+
+
+def apply_structural(case, ctx, g, calls):
+    """apply the case's in-place structural operations to g and to the caller's model of the allele calls"""
+    phased = case["phased"]
+    done = 0
+    for (op, raw, k, seed) in case.get("struct") or []:
+        m, n, p = calls.shape
+        fill = seed % 3
+        if op.endswith("_phase"):
+            if not phased:
+                continue
+            if op == "append_phase":
+                new = _bits(seed, (k, n, p), fill)
+                g.append_phase(new.copy())
+                calls = numpy.concatenate([calls, new], axis=0)
+            elif op == "incorp_phase":
+                pos = raw % (m + 1)
+                new = _bits(seed, (1, n, p), fill)
+                g.incorp_phase(pos, new.copy())
+                calls = numpy.insert(calls, pos, new[0], axis=0)
+            else:
+                if m < 2:
+                    continue
+                pos = raw % m
+                g.remove_phase(pos)
+                calls = numpy.delete(calls, pos, axis=0)
+        elif op.endswith("_taxa"):
+            if op == "append_taxa":
+                new = _bits(seed, (m, k, p), fill)
+                g.append_taxa(new.copy() if phased else new.sum(0).astype("int8"))
+                calls = numpy.concatenate([calls, new], axis=1)
+            else:
+                if n < 2:
+                    continue
+                pos = raw % n
+                g.remove_taxa(pos)
+                calls = numpy.delete(calls, pos, axis=1)
+        else:
+            if op == "append_vrnt":
+                new = _bits(seed, (m, n, k), fill)
+                g.append_vrnt(new.copy() if phased else new.sum(0).astype("int8"))
+                calls = numpy.concatenate([calls, new], axis=2)
+            else:
+                if p < 2:
+                    continue
+                pos = raw % p
+                g.remove_vrnt(pos)
+                calls = numpy.delete(calls, pos, axis=2)
+        ctx.label("structural:" + op)
+        done += 1
+    return calls, done
 
 
 def evaluate(case, ctx, g, calls):
